@@ -88,6 +88,8 @@ func tryReplay(opt Options, ob *Obligation, inputs map[string]string) (outcome, 
 		}
 		out, _ := runOverlayTest(opt.Repo, be.Module, be.PkgDir, path, be.Test, be.Race, env)
 		switch {
+		case strings.Contains(out, "WARNING: DATA RACE") || strings.Contains(out, "fatal error:"):
+			return "reproduced", out, string(srcB)
 		case strings.Contains(out, "GOVC-REPRODUCED"):
 			return "reproduced", out, string(srcB)
 		case strings.Contains(out, "GOVC-NOT-REPRODUCED"):
